@@ -56,6 +56,22 @@ def _run_lane(args):
     return out
 
 
+def _observe_child(args):
+    mod, case = args
+    from mc.engine import report
+    driver = importlib.import_module(mod)
+    try:
+        return report.jsonable(driver.observe(report.unjson(case)))
+    except BaseException as e:
+        return {'observe-raised': f'{type(e).__name__}: {e}'[:300]}
+
+
+def _observe_in_child(modname, case):
+    ctx = mp.get_context('fork')
+    with ctx.Pool(1) as pool:
+        return pool.apply(_observe_child, ((modname, case),))
+
+
 def main() -> int:
     ap = argparse.ArgumentParser()
     ap.add_argument('prop')
@@ -135,14 +151,15 @@ def main() -> int:
     if hasattr(driver, 'finalize'):
         driver.finalize(res, a.tier)
 
-    # determinism: the first and the last explored case must give identical observations twice
+    # determinism: the first and the last explored case must give identical observations twice.  Each observation is taken
+    # in its own forked child (same starting state, nothing carried over), so that code under test which keeps state across
+    # calls shows up as a VIOLATION of its property, not as a nondeterminism error of the harness.
     if hasattr(driver, 'observe'):
         for case in (res.first_case, res.last_case):
             if case is None:
                 continue
-            c = report.unjson(case)
-            o1 = report.jsonable(driver.observe(c))
-            o2 = report.jsonable(driver.observe(report.unjson(case)))
+            o1 = _observe_in_child(modname, case)
+            o2 = _observe_in_child(modname, case)
             if o1 != o2:
                 print(f'harness error: nondeterministic observation for case {case!r}:\n {o1!r}\n {o2!r}',
                       file=sys.stderr)
